@@ -182,18 +182,25 @@ func usesAuthMiddleware(site ssa.Instruction) bool {
 }
 
 func init() {
-	regExtern("github.com/free5gc/chf/internal/sbi.ServerChf.Config", "ServerChf.Config(): the configuration the application was started with: non-nil and satisfying the presence predicate of its valid tags (Config.Validate succeeded)",
+	regExtern("github.com/free5gc/chf/internal/sbi.ServerChf.Config", "ServerChf.Config(): the configuration the application was started with: non-nil and satisfying factory.SpecValidated (Config.Validate succeeded before the application was built)",
 		func(ex *Exec, fr *Frame, st *State, pc *Term, fn *ssa.Function, args []Value, pos token.Pos) (Value, *Term) {
-			p := Fresh("app.config", BV64)
+			recv := args[0].(VIface)
+			p := App("app.config", BV64, recv.Tag, recv.Pay) // one configuration per application object
 			ex.assume(pc, And(Not(Eq(p, C64(0))), ULt(p, st.next)))
-			// the application only starts with a configuration that passed Config.Validate
+			// the application only starts with a configuration that passed Config.Validate: factory.SpecValidated
+			// (the presence predicate of the valid tags plus the https rule) holds for it
+			done := false
 			for _, pkg := range ex.V.prog.AllPackages() {
 				if pkg.Pkg.Path() == "github.com/free5gc/chf/pkg/factory" {
-					if tn, ok := pkg.Members["Config"].(*ssa.Type); ok {
-						pt := types.NewPointer(tn.Type())
-						ex.assume(pc, ex.validatedPred(st, pc, pt, VPtr{T: p}, 0))
+					if sf := pkg.Func("SpecValidated"); sf != nil {
+						spec := &Frame{fn: fr.fn, vals: fr.vals, depth: fr.depth, spec: true}
+						ex.assume(pc, ex.inline(spec, st, pc, sf, []Value{VPtr{T: p}}, nil, true, pos).(VBool).T)
+						done = true
 					}
 				}
+			}
+			if !done {
+				panic(unsupported("factory.SpecValidated not found (contracts of package factory not loaded)"))
 			}
 			return VPtr{T: p}, pc
 		})
